@@ -101,11 +101,19 @@ Theorem C19_one_reference_left :
   forall st, SInv st -> 1 <= nstreams st -> refs st = 1 -> nstreams st = 1 /\ handles st = [].
 Proof. exact one_reference_left. Qed.
 
-Theorem C19_evict_needs_transition :
+Theorem C19_evicted_record_released_except_known :
+  forall st q k st1 o r1 st2 outs,
+  SInv st -> sstep st (LPop q) = SOk st1 [OKey k] ->
+  resolve st1 k = Some r1 -> r_ref r1 = 0 -> no_flags r1 = true -> so_closed o = true ->
+  sstep st1 (LTransitionAfter k o) = SOk st2 outs ->
+  resolve st2 k = None /\ alook (fst k) (slab st2) = None.
+Proof. exact evicted_record_released_except_known. Qed.
+
+Theorem C19_known_evict_refuted :
   srun (sinit None None 0%Z 20%Z None)
        [ LInsert 0 1 1; LPush KCap (0, 1); LTransitionAfter (0, 1) (mkSO true false false true); LQuiesce;
          LPop KCap; LQuiesce ] = inr (5, SStuck 9).
-Proof. exact evict_needs_transition. Qed.
+Proof. exact known_evict_refuted. Qed.
 
 Theorem C19_nonvacuous :
   match srun (sinit (Some 5%Z) None 10%Z 20%Z None) demo_slabels with
